@@ -142,3 +142,29 @@ def from_json(j):
     if isinstance(j, list):
         return tuple(from_json(x) for x in j)
     return j
+
+
+def wellformed(t, top=True):
+    """Is t a term the printer can render to grammatical OData text?"""
+    k = t[0]
+    if k == "named":
+        return False  # only directly inside a call (checked there)
+    if k == "list":
+        return len(t[1]) >= 1 and all(wellformed(x) for x in t[1])
+    if k == "cmp" and t[1] == "in":
+        return t[3][0] == "list" and wellformed(t[2]) and wellformed(t[3])
+    if k == "call":
+        args = t[3]
+        named = [a for a in args if a[0] == "named"]
+        if named and len(named) != len(args):
+            return False
+        return all(wellformed(a[2]) if a[0] == "named" else wellformed(a) for a in args)
+    if k == "lambda":
+        if t[1][0] not in ("id", "path"):
+            return False
+        if t[4] is None:
+            return t[2] == "any" and wellformed(t[1])
+        return wellformed(t[1]) and wellformed(t[4])
+    if k == "path":
+        return t[1][0] in ("id", "path") and wellformed(t[1])
+    return all(wellformed(c) for c in children(t))
